@@ -139,8 +139,16 @@ class ConstraintM:
         self.aff = aff
 
 
+def _zr(x):
+    z = z_of(x)
+    if z is None:
+        raise OutsideSubset(f"islmodel: coefficient {x!r}")
+    return z3.ToReal(z) if z.sort() == z3.IntSort() else z
+
+
 class SetM:
     """Conjunction of constraints  aff(p) >= 0  over integer parameters."""
+    _fresh = 0
 
     def __init__(self, space, affs):
         self.space = space
@@ -183,8 +191,41 @@ class SetM:
                 for n in self.space.names:
                     out.append(a.coeffs.get(n, 0) >= 0)
             return _and(out)
-        raise OutsideSubset("set inclusion other than against the "
-                            "non-negative orthant is not modelled")
+        # general case (not reached by the pinned code, which only ever asks
+        # about the orthant): affine Farkas lemma -- {B_i(p) >= 0} is included
+        # in {a(p) >= 0} iff a = sum lambda_i B_i + mu with lambda, mu >= 0.
+        # Decided over the rationals: exact for the unit-coefficient
+        # constraint systems that can be written with ineq_from_names.
+        if not other.affs:
+            out = []
+            for a in self.affs:
+                out.append(a.const >= 0)
+                for n in self.space.names:
+                    out.append(a.coeffs.get(n, 0) == 0)
+            return _and(out)
+        SetM._fresh += 1
+        conj = []
+        lams_all = []
+        for ai, a in enumerate(self.affs):
+            lams = [z3.Real(f"farkas{SetM._fresh}_{ai}_{i}")
+                    for i in range(len(other.affs))]
+            lams_all += lams
+            cs = [lam >= 0 for lam in lams]
+            for n in self.space.names:
+                lhs = _zr(a.coeffs.get(n, 0))
+                rhs = sum((lam * _zr(b.coeffs.get(n, 0))
+                           for lam, b in zip(lams, other.affs, strict=True)),
+                          z3.RealVal(0))
+                cs.append(lhs == rhs)
+            rhs0 = sum((lam * _zr(b.const)
+                        for lam, b in zip(lams, other.affs, strict=True)),
+                       z3.RealVal(0))
+            cs.append(_zr(a.const) >= rhs0)
+            conj.append(z3.And(cs))
+        body = z3.And(conj)
+        # multipliers of concrete constraints times symbolic coefficients of
+        # *self* only: linear in (lambda, symbols)
+        return mk_bool(z3.Exists(lams_all, body))
 
 
 def install(interp):
